@@ -4266,24 +4266,41 @@ let glencoe_read doc =
   | Ok fv ->
     (match jget ('t'::('r'::('e'::('e'::[])))) doc with
      | Ok tv ->
-       (match jget
-                ('c'::('o'::('n'::('s'::('t'::('r'::('a'::('i'::('n'::('t'::('s'::[])))))))))))
-                doc with
-        | Ok cv ->
-          (match glencoe_parse_tree (aval_depth tv) fv [] PNone tv with
-           | Ok proot_ ->
-             (match cv with
-              | VMap ckv ->
-                (match mapM (fun kc ->
-                         match glencoe_parse_ctc (aval_depth (snd kc)) fv
-                                 (snd kc) with
-                         | Ok n0 -> Ok { c_name = (fst kc); c_ast = n0 }
-                         | Err e -> Err e) ckv with
-                 | Ok cs -> Ok { proot = proot_; pctcs = cs }
-                 | Err e -> Err e)
-              | _ -> Err AttributeError)
-           | Err e -> Err e)
-        | Err e -> Err e)
+       (match doc with
+        | VMap kv ->
+          (match assoc
+                   ('c'::('o'::('n'::('s'::('t'::('r'::('a'::('i'::('n'::('t'::('s'::[])))))))))))
+                   kv with
+           | Some x ->
+             (match glencoe_parse_tree (aval_depth tv) fv [] PNone tv with
+              | Ok proot_ ->
+                (match x with
+                 | VMap ckv ->
+                   (match mapM (fun kc ->
+                            match glencoe_parse_ctc (aval_depth (snd kc)) fv
+                                    (snd kc) with
+                            | Ok n0 -> Ok { c_name = (fst kc); c_ast = n0 }
+                            | Err e -> Err e) ckv with
+                    | Ok cs -> Ok { proot = proot_; pctcs = cs }
+                    | Err e -> Err e)
+                 | _ -> Err AttributeError)
+              | Err e -> Err e)
+           | None ->
+             let cv = VMap [] in
+             (match glencoe_parse_tree (aval_depth tv) fv [] PNone tv with
+              | Ok proot_ ->
+                (match cv with
+                 | VMap ckv ->
+                   (match mapM (fun kc ->
+                            match glencoe_parse_ctc (aval_depth (snd kc)) fv
+                                    (snd kc) with
+                            | Ok n0 -> Ok { c_name = (fst kc); c_ast = n0 }
+                            | Err e -> Err e) ckv with
+                    | Ok cs -> Ok { proot = proot_; pctcs = cs }
+                    | Err e -> Err e)
+                 | _ -> Err AttributeError)
+              | Err e -> Err e))
+        | _ -> let e = AttributeError in Err e)
      | Err e -> Err e)
   | Err e -> Err e
 
